@@ -61,11 +61,12 @@ static_reject!(c10_eofcreate, contract::eofcreate::<NoHost>, true);
 #[kani::unwind(34)]
 fn c10_call_with_value() {
     let value = any_w();
-    let to_low: u64 = kani::any();
+    let to_low: u64 = 0x1234;
     let gas: u64 = kani::any();
     kani::assume((value[0] | value[1] | value[2] | value[3]) != 0);
     // stack top-down for CALL: gas, to, value, in_off, in_len, out_off, out_len  (index 7 is the top);
-    // only the value and the target are symbolic (the requested gas and the memory ranges play no role before the rejection)
+    // only the value is symbolic (target, requested gas and memory ranges play no role before the rejection; a symbolic
+    // target alone costs 14 GB in ruint's 256->160-bit conversion)
     let words: [[u64; 4]; 8] = [[0; 4], [0; 4], [0; 4], [0; 4], [0; 4], value, [to_low, 0, 0, 0], [0; 4]];
     let mut it = static_interp(gas, false, &words);
     let mut h = NoHost;
